@@ -3,6 +3,7 @@
   the pattern split of `process_path` (cli.py:473-499) on already split path components, and the `-m` tuple shapes.
 -/
 import J2M.Json
+import J2M.Header
 namespace J2M.CliArgs
 
 /-- one `NAME=VALUE` item: optional surrounding double quotes are removed, then `split("=", 1)` -/
@@ -45,5 +46,31 @@ def modelTuple (xs : List String) : Except PyErr (String × String × String) :=
   | [n, p] => .ok (n, "-", p)
   | [n, l, p] => .ok (n, l, p)
   | _ => .error .valueError
+
+/-- the characters `str.isspace()` accepts, i.e. what `str.strip()` removes (compared with CPython's table over all code
+    points on every run: op `spaces`) -/
+def pyIsSpace (c : Char) : Bool :=
+  let n := c.toNat
+  (9 ≤ n && n ≤ 13) || (28 ≤ n && n ≤ 32) || n == 0x85 || n == 0xa0 || n == 0x1680 || (0x2000 ≤ n && n ≤ 0x200a) ||
+  n == 0x2028 || n == 0x2029 || n == 0x202f || n == 0x205f || n == 0x3000
+
+def pyStrip (s : List Char) : List Char := ((s.dropWhile pyIsSpace).reverse.dropWhile pyIsSpace).reverse
+
+/-- what `Cli.set_args` (cli.py:236-254) stores for the options that are not merge policy / framework tables -/
+structure SetArgs where
+  dictKeysRegex : List String          -- pattern sources, one compiled pattern per expression
+  dictKeysFields : List String
+  preamble : Option String
+  convertUnicode : Bool
+  kwargs : List (String × String)
+deriving Repr
+
+def setArgs (kwItems dkr dkf : List String) (disableUnicode : Bool) (preamble : Option String) : Except PyErr SetArgs := do
+  let kw ← parseKwargs kwItems
+  pure { dictKeysRegex := dkr.map (fun r => "^" ++ r ++ "$"),
+         dictKeysFields := dkf,
+         preamble := (Header.cliPreamble pyStrip (preamble.map String.toList)).map String.ofList,
+         convertUnicode := !disableUnicode,
+         kwargs := kw }
 
 end J2M.CliArgs
